@@ -282,7 +282,7 @@ func acceptDeflate(ext websocketExtension, mode CompressionMode) (*compressionOp
 			continue
 		}
 
-		if strings.HasPrefix(p, "client_max_window_bits=") {
+		if strings.HasPrefix(p, "client_max_window_bits=") && validWindowBits(strings.TrimPrefix(p, "client_max_window_bits=")) {
 			// We can't adjust the deflate window, but decoding with a larger window is acceptable.
 			continue
 		}
